@@ -22,7 +22,8 @@ Definition view_desc (sid : N) (d : segdesc) : val :=
       vn (d_device d); VL (map view_co (d_components d)); vn (d_upid_type d);
       VB (ScteEnc.get_upid d); VL (map view_upid (ScteEnc.get_mid d));
       vn (d_type d); vn (d_seg_num d); vn (d_segs_expected d); vbool (d_has_sub d);
-      vn (d_sub_seg_num d); vn (d_sub_segs_expected d)].
+      vn (d_sub_seg_num d); vn (d_sub_segs_expected d);
+      vn (d_seg_num d)].   (* SegmentNum(), the deprecated alias of SegmentNumber() *)
 Definition view_scte (s : scte) : val :=
   VL [vbool (cmd_has_pts (s_cmd s)); vn (s_pts s); vn (s_tier s); vn (s_cmd_type s); vn (s_stuffing s);
       VB (s_data s); view_cmd (s_cmd s); VL (map (view_desc (s_id s)) (s_descs s))].
